@@ -222,6 +222,11 @@ def property_oracle(ctx, case, o):
         key = 'unproved-srp-username:%s' % o['site']
         what = ('server completed a %s handshake WITHOUT SRP and recorded session.srpUsername=%r taken from the '
                 'unauthenticated ClientHello extension' % (o['ver'], idn['srp']))
+    elif o.get('unproved_ticket_chain'):
+        key = 'unproved-ticket-chain:%s:%s' % (o['site'], o['how'])
+        what = ('server completed a full TLS 1.3 handshake with a peer that presented only an unusable ticket (%s, garbage binder, '
+                'no certificate, reqCert=%s) and recorded the ticket\'s client chain in session.clientCertChain=%r'
+                % (o['how'], case.get('req_cert'), idn['client']))
     elif o['expect_accept'] and not (accepted and o['model'].get('sig_answer') is False):
         if not accepted or (o['claimed'] is not None and peer_id != o['claimed']):
             key = 'honest-proof-rejected:%s:%s' % (o['site'], o['how'])
